@@ -265,6 +265,14 @@ def run_unit(unit_path, workdir, canary=False, rlimit=None, extra_mutation=None,
             continue
         seen.add(key)
         uniq.append(fl)
+    # A function whose hint anchors were lost (the statement a proof hint was attached to is gone or changed) cannot be judged:
+    # a failed obligation there may just be the missing hint.  Such failures make the unit UNDECIDED (exit 2), never an alarm.
+    lost_fns = set(f['qual'] for f in fnmap if f.get('lost'))
+    undecided_fails = [fl for fl in uniq if fl['fn'] in lost_fns]
+    uniq = [fl for fl in uniq if fl['fn'] not in lost_fns]
+    res['undecided_failures'] = [dict(obligation=fl['obligation'], message=fl['message']) for fl in undecided_fails]
+    if undecided_fails:
+        res['notes'].append('hint anchor lost in %s: %d failed obligation(s) there are not judged (undecided)' % (sorted(lost_fns), len(undecided_fails)))
     res['failures'] = uniq
     res['hard_errors'] = hard_errors
     res['tool_limits'] = tool_limits
@@ -296,6 +304,8 @@ def run_unit(unit_path, workdir, canary=False, rlimit=None, extra_mutation=None,
         res['status'] = 'undecided'
     elif uniq:
         res['status'] = 'failed'
+    elif undecided_fails:
+        res['status'] = 'undecided'
     elif tool_limits:
         res['status'] = 'undecided'
     elif out_json and out_json['verification-results'].get('success'):
